@@ -137,11 +137,46 @@ def make_classes(ctl):
         def __hash__(self):
             return 3
 
-    return {"mixin": NM, "node": ND, "anynode": AN, "symlink": SL, "light": LT, "eqmixin": EQ, "lighteq": LTEQ}
+    class NDF(ND):
+        """a Node subclass that is falsy and has length 0 (a node nevertheless)"""
+
+        def __bool__(self):
+            return False
+
+        def __len__(self):
+            return 0
+
+    class ANL(AN):
+        """an AnyNode subclass with container semantics: falsy exactly while it has no children"""
+
+        def __len__(self):
+            return len(self.children)
+
+    return {"mixin": NM, "node": ND, "anynode": AN, "symlink": SL, "light": LT, "eqmixin": EQ, "lighteq": LTEQ,
+            "falsynode": NDF, "lenany": ANL}
 
 
 class NotANode(object):
     pass
+
+
+class FalsyNotANode(object):
+    def __bool__(self):
+        return False
+
+    def __len__(self):
+        return 0
+
+
+def convert(val, how):
+    """the right-hand side of a children assignment may be any iterable"""
+    if how == "tuple":
+        return tuple(val)
+    if how == "iter":
+        return iter(val)
+    if how == "gen":
+        return (x for x in list(val))
+    return val
 
 
 def exc_tag(e):
@@ -184,6 +219,8 @@ def _impl(case):
             return None
         if v == "x":
             return NotANode()
+        if v == "y":
+            return FalsyNotANode()
         return ctl.nodes[v]
 
     out = []
@@ -196,20 +233,13 @@ def _impl(case):
                 ctl.nodes[op["n"]].parent = arg(op["v"])
             elif k == "sc":
                 xs = op["xs"]
-                val = 5 if xs is None else [arg(x) for x in xs]
-                how = op.get("as")
-                if xs is not None and how == "tuple":
-                    val = tuple(val)
-                elif xs is not None and how == "iter":
-                    val = iter(val)
-                elif xs is not None and how == "gen":
-                    val = (x for x in list(val))
+                val = 5 if xs is None else convert([arg(x) for x in xs], op.get("as"))
                 ctl.nodes[op["n"]].children = val
             elif k == "dc":
                 del ctl.nodes[op["n"]].children
             elif k == "ctor":
                 cs = op["cs"]
-                kids = None if cs is None else (5 if cs == "x" else [arg(x) for x in cs])
+                kids = None if cs is None else (5 if cs == "x" else convert([arg(x) for x in cs], op.get("as") if cs else None))
                 pick()(parent=arg(op["p"]), children=kids)
             else:
                 raise ValueError(k)
